@@ -87,6 +87,7 @@ type LoopSpec struct {
 	Unbounded  string // reason why no variant is claimed
 	Invariants []*Clause
 	Decreases  []*Clause
+	Steps      []*Clause // checked at every back edge, over the iteration that ends there
 	Used       bool
 	Line       int
 }
@@ -476,6 +477,10 @@ func (S *Specs) parseClause(file string, line int, cur *FuncSpec, word, rest str
 			ls.Invariants = append(ls.Invariants, c)
 		case "decreases":
 			ls.Decreases = append(ls.Decreases, c)
+		case "step":
+			// loop "hdr" step name: E -- E holds whenever an iteration ends and the
+			// loop goes round again; it may use the sites the iteration went through
+			ls.Steps = append(ls.Steps, c)
 		default:
 			S.errf(file, line, "loop: unknown clause %q", kind)
 		}
